@@ -36,7 +36,7 @@ def plan(tier, seed):
     for r in range(n):
         cases.append(dict(lane='matrix', K=int(rng.integers(1, 7)), lead=pick([[], [4]]), dtype=pick(['float', 'int', 'ties', 'uint8', 'uint16', 'bool', 'int8', 'float-neg', 'float-neg']), rs=[seed, 17, i])); i += 1
     for r in range(n):
-        refk = pick(['onehot-ish', 'continuous', 'soft', 'similar', 'int8-binary', 'bool-binary', 'quiet', 'quiet32'])
+        refk = pick(['onehot-ish', 'continuous', 'soft', 'similar', 'int8-binary', 'bool-binary', 'quiet', 'quiet32', 'signed', 'antipodal'])
         cases.append(dict(lane='field', K=int(rng.integers(1, 7)), F=int(pick([1, 3, 5, 9, 33, 65, 129, 257])), T=int(rng.integers(2, 40)) if 'binary' not in refk else int(pick([60, 400, 1000])),
                           metric=(pick(METRICS) if not refk.startswith('quiet') else 'cos') if 'binary' not in refk else ('cos' if refk == 'bool-binary' else pick(['cos', 'euclidean'])),   # boolean arrays cannot be subtracted (explicit TypeError)
                           alg=pick(['greedy', 'optimal']),
@@ -140,6 +140,11 @@ def reference(rng, kind, K, F, T):
             ref = (lab[None] == np.arange(K)[:, None, None]).astype(float) * rng.uniform(0.5, 1.0, size=(K, F, T)) + 0.01 * rng.uniform(size=(K, F, T))
         elif kind == 'soft':
             ref = np.moveaxis(rng.dirichlet([0.3] * K, size=(F, T)), -1, 0) + 1e-3
+        elif kind in ('signed', 'antipodal'):
+            # real masks with entries of both signs (e.g. centred features); 'antipodal': one class row is the exact negative of another
+            ref = rng.standard_normal((K, F, T))
+            if kind == 'antipodal' and K >= 2:
+                ref[1] = -ref[0]
         else:
             ref = rng.uniform(0.05, 1.0, size=(K, F, T))
         if kind.startswith('quiet'):
